@@ -304,6 +304,42 @@ def rewrap_and_returns(chk, prog):
             chk.error("UNIT-RET: %s has no value-returning path" % ref)
 
 
+COMPLEX_ADMITTING = ("number", "inexact", "generic", "complexfloating", "object_")
+
+
+def real_dtype_gate(chk, prog):
+    """REAL-GATE: the shared validator _assert_numerical_iterable (called by every constructor and converter before anything else) raises unless the
+    dtype is a real one.  The predicate is classified structurally: equality with int / float dtypes, or np.issubdtype against np.integer /
+    np.floating; an abstract class that also contains complex (np.number, np.inexact ...) lets complex input through, and the constructors then
+    drop or reinterpret the imaginary part instead of refusing it."""
+    f = prog.func("ahrs/utils/core.py::_assert_numerical_iterable")
+    chk.touch(f)
+    raises = [n for n in ast.walk(f.node) if isinstance(n, ast.If) and any(isinstance(b, ast.Raise) for b in n.body) and "dtype" in ast.unparse(n.test)]
+    site = f.ref + "::dtype gate"
+    if not raises:
+        chk.record("REAL-GATE", site, "a dtype test guards a raise", verdict="VIOLATION")
+        chk.finding("REAL-GATE", f.module.rel, f.qname, "no dtype gate", "the validator no longer raises on a non-numeric / non-real dtype", line=f.node.lineno)
+        return
+    bad = []
+    for r in raises:
+        names = {}
+        for s_ in ast.walk(f.node):      # resolve locals used in the test
+            if isinstance(s_, ast.Assign) and isinstance(s_.targets[0], ast.Name):
+                names[s_.targets[0].id] = s_.value
+        for c in ast.walk(r.test):
+            if isinstance(c, ast.Call) and ast.unparse(c.func).split(".")[-1] == "issubdtype" and len(c.args) == 2:
+                cls = ast.unparse(c.args[1]).split(".")[-1]
+                if cls in COMPLEX_ADMITTING:
+                    bad.append((c, cls))
+    if bad:
+        c, cls = bad[0]
+        why = "`%s` is true for complex dtypes as well (np.%s contains complexfloating): complex vectors and complex-orthogonal matrices pass the validator" % (ast.unparse(c), cls)
+        chk.record("REAL-GATE", site, "the dtype gate admits real dtypes only", verdict="VIOLATION", detail=why)
+        chk.finding("REAL-GATE", f.module.rel, f.qname, "dtype gate admits complex: %s" % ast.unparse(c), why, line=c.lineno)
+    else:
+        chk.record("REAL-GATE", site, "the dtype gate admits real (int / float) dtypes only")
+
+
 def canaries(chk, prog):
     from sa.report import Check
 
@@ -359,6 +395,7 @@ def run(chk, prog, tier):
     so3_gate(chk, prog, DCM + "::_assert_SO3")
     so3_gate(chk, prog, QUAT + "::Quaternion.from_DCM")
     rewrap_and_returns(chk, prog)
+    real_dtype_gate(chk, prog)
     chk.require_count("CTOR-GATE.quat", 4)
     chk.require_count("SO3-GATE", 2)
     chk.require_count("BUFFER-LAYOUT", 3)
